@@ -180,7 +180,16 @@ def draw_payload_edit(draw, mod, tname, depth):
         if k == "m_count":
             return ["m_count", draw(st.one_of(st.sampled_from([0, 1, 27, 96]), st.integers(0, 96)))]
         if k == "m_map":
-            return ["m_map", draw(st.integers(0, 95)), draw(u16), draw(u16)]
+            i, mi, ci = draw(st.integers(0, 95)), draw(u16), draw(u16)
+            # precondition of the library (outside every listed property): an *exposed* user controller
+            # keeps its stored number when its mapping is changed; re-pointing it at an enumerated
+            # controller would write a file whose value is no member of the enumeration, which the
+            # reader refuses by design.  Such re-mappings go to a module that does not exist instead.
+            if i < n and 0 < mi < len(mod.project.modules) and mod.project.modules[mi] is not None:
+                mt = specmodel.by_mtype().get(mod.project.modules[mi].mtype)
+                if mt is not None and ci < len(mt.controllers) and mt.controllers[ci].kind in ("enum", "bool"):
+                    mi = 0xFFF0
+            return ["m_map", i, mi, ci]
         if k == "m_label":
             return ["m_label", draw(st.integers(0, min(n, 96) - 1)), draw(st.one_of(vs.text_no_nul(10), vs.text_no_nul(10), vs.long_text()))]
         return ["embedded"] + draw(draw_edit(mod.project, depth + 1).filter(lambda e: not live_propagation_hazard(mod, e)))
@@ -213,6 +222,12 @@ def user_value_targets(meta):
         if c.kind not in ("range", "compact"):
             continue
         if maps.count((mi, ci)) != 1 or (mi, ci + 1) in maps or (mi, ci - 1) in maps:
+            continue
+        # the controller must already have taken over its target's range (it does so when the file is
+        # loaded; a controller exposed or re-mapped since then still has its placeholder range until the
+        # program calls update_user_defined_controllers)
+        vt = meta.user_defined[i].value_type
+        if (getattr(vt, "min", None), getattr(vt, "max", None)) != (c.min, c.max):
             continue
         t = labels[i]
         alias = None
